@@ -46,7 +46,7 @@ def _tbl(fn, src, dst, padded, mesh_type=None, n="n_row", extra_params=None):
     params = {"in_ds": f"obj('Dataset', owner='caller', vars={vars_!r})", "out_ds": "obj('Dataset', owner='fresh')"}
     if mesh_type is not None:
         params["mesh_type"] = repr(mesh_type)
-    contract(_MP + fn, props=["C01", "C03"], variant=(mesh_type or "primal"),
+    contract(_MP + fn, props=["C01", "C02", "C03"], variant=(mesh_type or "primal"),
              sizes=[n, "W"], params=params, returns="none",
              # MPAS index tables are one-based, 0 marks a missing entry (MPAS mesh specification)
              requires=[f"forall(0, {n}, 0, W, lambda r, j: {c}[r, j] >= 0)"],
@@ -68,3 +68,5 @@ _tbl("_parse_face_edges", "edgesOnCell", "face_edge_connectivity", padded=True, 
 _tbl("_parse_face_edges", "edgesOnVertex", "face_edge_connectivity", padded=False, mesh_type="dual")
 _tbl("_parse_edge_faces", "cellsOnEdge", "edge_face_connectivity", padded=False, mesh_type="primal")
 _tbl("_parse_edge_faces", "verticesOnEdge", "edge_face_connectivity", padded=False, mesh_type="dual")
+_tbl("_parse_edge_nodes", "verticesOnEdge", "edge_node_connectivity", padded=False, mesh_type="primal")
+_tbl("_parse_edge_nodes", "cellsOnEdge", "edge_node_connectivity", padded=False, mesh_type="dual")
